@@ -23,6 +23,34 @@ fn json_str(s: &str) -> String {
     out
 }
 
+thread_local! {
+    /// struct name and query path of the invocation being expanded (set by `log_invocation`)
+    static CURRENT: std::cell::RefCell<(String, String)> = std::cell::RefCell::new((String::new(), String::new()));
+}
+
+/// Appends the token stream the macro really returns for the current invocation (as opposed to the
+/// one `log_invocation` obtains by calling the library again with the same options).
+pub(crate) fn log_output(output: &proc_macro::TokenStream) {
+    let log_path = match std::env::var("GRAPHQL_CLIENT_VERIF_LOG") {
+        Ok(path) if !path.is_empty() => path,
+        _ => return,
+    };
+    let (struct_name, query_path) = CURRENT.with(|c| c.borrow().clone());
+    let line = format!(
+        "{{\"struct\":{},\"stage\":\"returned\",\"query_path\":{},\"text\":{}}}\n",
+        json_str(&struct_name),
+        json_str(&query_path),
+        json_str(&output.to_string()),
+    );
+    if let Ok(mut file) = std::fs::OpenOptions::new()
+        .create(true)
+        .append(true)
+        .open(log_path)
+    {
+        let _ = file.write_all(line.as_bytes());
+    }
+}
+
 pub(crate) fn log_invocation(input: proc_macro::TokenStream) {
     let log_path = match std::env::var("GRAPHQL_CLIENT_VERIF_LOG") {
         Ok(path) if !path.is_empty() => path,
@@ -59,6 +87,7 @@ fn describe(input: proc_macro::TokenStream) -> String {
             )
         }
     };
+    CURRENT.with(|c| *c.borrow_mut() = (struct_name.clone(), query_path.display().to_string()));
     let options = match super::build_graphql_client_derive_options(&ast, query_path.clone()) {
         Ok(options) => options,
         Err(err) => {
